@@ -26,8 +26,8 @@ func trimGorootClass(res *RunResult) string {
 var footerRE = regexp.MustCompile(`(?m)^at (.+):(\d+)$`)
 
 func checkC11(c *vkit.Ctx) {
-	c.P.Rule = "case = real test program (root package and a package two levels deep; helpers in the same test file, in a non-test file, in a sub-package; the call statement below 20-300 recursive frames of a non-test file; closures; goroutines; bare deferred calls that run on normal return, during a recovered panic and during runtime.Goexit; subtests 1-3 deep with spaces, `#`, unicode, `%`, `/` in their names) x Dir{unset, relative, nested relative, absolute} x Filename{unset,set} x Ext{unset, .txt, .snapshot, .snap.json, .golden.txt, _v2, .snap} x the five entry points, launched (a) with cwd = package directory, (b) from three foreign working directories, (c) built with -trimpath and run from the package directory; oracle: the set of files created anywhere under the module tree, the absolute directory and the working directory == the set the C11 location function gives for the calls in the event log; then every value is changed under Update(false) and the `at <rel>:<line>` footer of each failure report must resolve to the same file; non-trivial = call through >=1 helper frame, or a non-default option, or the deep package; distinct by hash(scenario, launch mode)"
-	c.P.Assumptions = []string{"-trimpath combined with a foreign working directory is the README's documented limitation and is not generated", "subtest closures defined in non-test files and helpers living in another _test.go file are outside the statement's well-defined cases and are not generated"}
+	c.P.Rule = "case = real test program (root package and a package two levels deep; helpers in the same test file, in another test file of the package, in a non-test file (also reached through that other test file, so one non-test call statement serves two test files within one test), in a sub-package; the call statement below 20-300 recursive frames of a non-test file; closures; goroutines; bare deferred calls that run on normal return, during a recovered panic and during runtime.Goexit; subtests 1-3 deep with spaces, `#`, unicode, `%`, `/` in their names) x Dir{unset, relative, nested relative, absolute} x Filename{unset,set} x Ext{unset, .txt, .snapshot, .snap.json, .golden.txt, _v2, .snap} x the five entry points, launched (a) with cwd = package directory, (b) from three foreign working directories, (c) built with -trimpath and run from the package directory; oracle: the set of files created anywhere under the module tree, the absolute directory and the working directory == the set the C11 location function gives for the calls in the event log; then every value is changed under Update(false) and the `at <rel>:<line>` footer of each failure report must resolve to the same file; non-trivial = call through >=1 helper frame, or a non-default option, or the deep package; distinct by hash(scenario, launch mode)"
+	c.P.Assumptions = []string{"-trimpath combined with a foreign working directory is the README's documented limitation and is not generated", "the calling test file is the nearest _test.go file on the stack at the call (a helper in another test file of the package makes that file the calling one)", "subtest closures defined in non-test files are outside the statement's well-defined cases and are not generated"}
 	root := vkit.MkScratch("prog")
 	defer os.RemoveAll(root)
 	sh := DefaultShape()
@@ -120,7 +120,7 @@ func runC11(c *vkit.Ctx, plain, trim *Program, foreign []string, absDir string, 
 		scn.Nodes[name] = n
 		for k := 0; k < 1+r.IntN(3); k++ {
 			api := []string{"snap", "json", "yaml", "ssnap", "sjson"}[r.IntN(5)]
-			cl := Call{API: api, Dir: dirs[r.IntN(len(dirs))], Via: []string{"", "", "helper", "helper2", "subpkg", "closure", "goroutine", "direct-nontest", "direct-nontest", "direct-nontest-helper"}[r.IntN(10)]}
+			cl := Call{API: api, Dir: dirs[r.IntN(len(dirs))], Via: []string{"", "", "helper", "helper2", "subpkg", "closure", "goroutine", "direct-nontest", "direct-nontest", "direct-nontest-helper", "direct-othertest", "nontest-via-othertest", "nontest-via-othertest"}[r.IntN(13)]}
 			if r.IntN(8) == 0 {
 				cl.Via = []string{"defer-panic", "defer-goexit", "defer-return"}[r.IntN(3)]
 			}
